@@ -918,6 +918,81 @@ def _quantifier_returns(tree):
                 i += 1
 
 
+def _first_match(tree):
+    """``found = next((e for x in xs if c), d)`` - directly, or through a
+    name bound to the generator in the statement before and used nowhere
+    else - is the search loop ``found = d; for x in xs: if c: found = e;
+    break``."""
+    for fn in ast.walk(tree):
+        if not isinstance(fn, (ast.FunctionDef, ast.AsyncFunctionDef)):
+            continue
+        uses = {}
+        for n in ast.walk(fn):
+            if isinstance(n, ast.Name):
+                uses[n.id] = uses.get(n.id, 0) + 1
+        for node in ast.walk(fn):
+            for fld in ('body', 'orelse', 'finalbody'):
+                blk = getattr(node, fld, None)
+                if not (isinstance(blk, list) and blk and isinstance(
+                        blk[0], ast.stmt)):
+                    continue
+                i = 0
+                while i < len(blk):
+                    st = blk[i]
+                    i += 1
+                    if not (isinstance(st, ast.Assign) and len(
+                            st.targets) == 1 and isinstance(
+                                st.targets[0], ast.Name) and isinstance(
+                                    st.value, ast.Call) and isinstance(
+                                        st.value.func, ast.Name) and
+                            st.value.func.id == 'next' and len(
+                                st.value.args) == 2 and
+                            not st.value.keywords):
+                        continue
+                    g, dflt = st.value.args
+                    prev = None
+                    if isinstance(g, ast.Name) and i >= 2:
+                        p_ = blk[i - 2]
+                        if isinstance(p_, ast.Assign) and len(
+                                p_.targets) == 1 and isinstance(
+                                    p_.targets[0], ast.Name) and \
+                                p_.targets[0].id == g.id and isinstance(
+                                    p_.value, ast.GeneratorExp) and \
+                                uses.get(g.id) == 2:
+                            prev, g = p_, p_.value
+                    if not (isinstance(g, ast.GeneratorExp) and len(
+                            g.generators) == 1 and not
+                            g.generators[0].is_async):
+                        continue
+                    gen = g.generators[0]
+                    tname = st.targets[0].id
+                    if tname in {x.id for x in ast.walk(g)
+                                 if isinstance(x, ast.Name)}:
+                        continue
+                    hit = [ast.copy_location(ast.Assign(
+                        targets=[ast.Name(id=tname, ctx=ast.Store())],
+                        value=g.elt), st),
+                        ast.copy_location(ast.Break(), st)]
+                    body = hit
+                    for c in reversed(gen.ifs):
+                        body = [ast.copy_location(
+                            ast.If(test=c, body=body, orelse=[]), st)]
+                    tgt = gen.target
+                    for x in ast.walk(tgt):
+                        if isinstance(x, ast.Name):
+                            x.ctx = ast.Store()
+                    loop = ast.copy_location(ast.For(
+                        target=tgt, iter=gen.iter, body=body, orelse=[]), st)
+                    init = ast.copy_location(ast.Assign(
+                        targets=[ast.Name(id=tname, ctx=ast.Store())],
+                        value=dflt), st)
+                    ast.fix_missing_locations(loop)
+                    ast.fix_missing_locations(init)
+                    lo = i - 2 if prev is not None else i - 1
+                    blk[lo:i] = [init, loop]
+                    i = lo + 2
+
+
 def _tuple_assigns(tree):
     """``a, b = x, y`` with plain names on the left, none of them read on
     the right, is ``a = x`` then ``b = y``."""
@@ -1158,6 +1233,7 @@ def normalise(tree):
     _conditional_expressions(tree)
     _star_dict_calls(tree)
     _quantifier_returns(tree)
+    _first_match(tree)
     _tuple_assigns(tree)
     _dead_constant_stores(tree)
     _bind_loop_iterables(tree)
